@@ -88,6 +88,10 @@ def gen_rib_file(rng, empty_view=None):
         entries = []
         for _ in range(1 + rng.below(5)):
             entries.append((rng.below(len(peers)), rng.below(1 << 32), gen_attrs(rng)))
+        if rng.chance(1, 60):
+            # a record longer than 65535 octets (the length field has 32 bits): two entries with 33000..65535 attribute octets each
+            for _ in range(2):
+                entries.append((rng.below(len(peers)), rng.below(1 << 32), rng.bytes(rng.choice([33000, 40000, 65535]))))
         body = struct.pack('>I', rng.below(1 << 32)) + pb + struct.pack('>H', len(entries)) + \
             b''.join(struct.pack('>HIH', i, ot, len(a)) + a for i, ot, a in entries)
         out += rec(rng.below(1 << 32), 13, 4 if v6 else 2, body)
@@ -180,7 +184,9 @@ def run(ctx):
         b, exp = gen_rib_file(rng)
         lines.append('RIB %s' % b.hex())
         meta.append(('rib', exp))
-        lines.append('RIB %s' % (mutate(rng, b).hex() or '-'))
+        # (the model walks lists: a mutated length field that makes one record of a 100 KB file costs it minutes, so the
+        # mutated copy is made of the ordinary files only)
+        lines.append('RIB %s' % (mutate(rng, b if len(b) < 60000 else b[:2000]).hex() or '-'))
         meta.append((None, None))
     n_mp = 500 if quick else 8000
     n_trunc = 0
